@@ -51,8 +51,8 @@ ASSUMPTIONS = {
 EXPECTED_PROBES = {
     'C06': ['interrupted_nonsquare_R', 'budget_inside_first_batch', 'conv_fired', 'maxvol_iteration_limit',
             'stop_m', 'stop_func', 'stop_cb', 'stop_e', 'stop_e_vld', 'stop_nswp', 'pre_iteration_stop',
-            'valueerror_rejected'],
-    'C05': ['restart_all_from_cache_conv', 'reproduction_checked', 'transparency_bitwise', 'foreign_cache',
+            'valueerror_rejected', 'long_run_over_100_sweeps'],
+    'C05': ['restart_all_from_cache_conv', 'reproduction_checked', 'transparency_bitwise', 'foreign_cache', 'unobserved_run',
             'crash_none', 'crash_m', 'crash_cb', 'crash_raise', 'liveness_checked', 'reproduction_checked_at_interruption'],
 }
 BUDGET = {
@@ -265,7 +265,7 @@ def run_once(cfg, world, plan, cache=None, Y0=None, stop_args=None, keep_tensors
     Y0_bytes = [G.tobytes() for G in Y0]
     kw = dict(m=m, e=cfg.get('e'), nswp=cfg.get('nswp'), tau=cfg['tau'], dr_min=cfg['dr_min'],
               dr_max=cfg['dr_max'], tau0=cfg['tau0'], k0=cfg['k0'], info=o.info, cache=cache,
-              I_vld=I_vld, y_vld=y_vld, e_vld=cfg.get('e_vld'), cb=o.mon,
+              I_vld=I_vld, y_vld=y_vld, e_vld=cfg.get('e_vld'), cb=None if plan.get('no_cb') else o.mon,
               m_cache_scale=cfg['m_cache_scale'], log=cfg.get('log', False))
     if stop_args is not None:
         kw.update(stop_args)
@@ -636,6 +636,19 @@ def argcombo_runs(scen, world, V, stats):
                 continue
             st = {}
             check_direct(o, c2, plan, 'none', n, V, st, tag)
+    if scen['combo_seed'] % 3 == 0:
+        # a run that no sweep count limits (validation threshold out of reach: the validation values are noisy) goes on until the
+        # callback ends it, however late that is
+        S = 101 + int(g.integers(0, 40))
+        yn = yv + 0.05 * (1.0 + np.abs(yv)) * g.standard_normal(len(yv))
+        c2 = dict(cfg, e=None, nswp=None, e_vld=1e-9, log=False, dr_min=0, dr_max=0)
+        plan = {'m': None, 'cb_at': S, 'args': {'e_vld': 1e-9, 'long_run_until_sweep': S}}
+        o = run_once(c2, world, plan, stop_args={'I_vld': Iv, 'y_vld': yn}, keep_tensors=False, sweep_cap=S + 5)
+        runs += 1
+        st = {}
+        tag = 'long run ended by the callback at sweep %d (only e_vld given, out of reach)' % S
+        if check_direct(o, c2, plan, 'none', n, V, st, tag) and o.info.get('stop') == 'cb' and o.info.get('nswp') == S:
+            stats['probe.long_run_over_100_sweeps'] = stats.get('probe.long_run_over_100_sweeps', 0) + 1
     return runs
 
 
@@ -813,6 +826,23 @@ def execute_incarnations(scen):
     runs += 1
     Ypre = pre.Y
     trace = twin_trace(tw)
+    if tw.info.get('stop') != 'cb':
+        # nobody watching: the same call without a sweep callback returns the same tensor and the same progress record
+        un = run_once(cfg, world, {'no_cb': True})
+        runs += 1
+        P('unobserved_run')
+        if un.Y is None:
+            V.append(viol(prop, 'exception', 'the fault-free run without a callback failed: %r %r' % (un.exc, un.abort)))
+        elif [G.tobytes() for G in un.Y] != [G.tobytes() for G in tw.Y]:
+            V.append(viol(prop, 'transparency-callback', 'the run without a sweep callback returns another tensor than the run with a callback that only watches'))
+        else:
+            ia = {k: repr(v) for k, v in tw.info.items() if k != 't'}
+            ib = {k: repr(v) for k, v in un.info.items() if k != 't'}
+            if ia != ib:
+                V.append(viol(prop, 'transparency-callback', 'info of the run without a sweep callback differs from the watched run: %s'
+                              % sorted((k, ia.get(k), ib.get(k)) for k in set(ia) | set(ib) if ia.get(k) != ib.get(k))[:4]))
+        if V:
+            return {'violations': V, 'runs': runs, 'stats': stats, 'digest': dig('x'), 'nontrivial': 0, 'sim_time': 0.0}
     # initial durable state
     if scen['cache0'] == 'empty':
         cache = make_cache(cfg)
